@@ -289,6 +289,13 @@ def check_c19(run):
         mod = fam.write(run.scratch)
         S, M, st = run.tlc_replay(mod, fam.name, cfg=mod + ".cfg", replay_args=["--keys", "derived,hostname,port,href", "--spmodes", "late", "--parser", pname])
         absorb(run, M, S, fam.name)
+    # ... and under lax host parsing: a host the strict parser rejects is kept as text - never an address, whatever its last label looks like
+    lstarts = ["http://a b.1/", "http://%ff.0x10/x", "http://ex|ample.80/", "http://1.2.3.4/", "http://a.b/", "ws://a^b.7:81/", "http://0x10.1/", "x://a b.1/"]
+    lops = [("host", v) for v in ("a<b.12", "5.6.7.8", "h2", "c d.0x1:8", "[::1]")] + [("hostname", "x y.9"), ("protocol", "x"), ("protocol", "https"), ("port", "9")]
+    fam = ApiFamily("derived_lax", lstarts, setter_ops=lops, refs=["/x", "//e f.3/", "?q"], depth=3, nh=2, clone=True, popts='OptsOf("lax_host")')
+    mod = fam.write(run.scratch)
+    S, M, st = run.tlc_replay(mod, fam.name, cfg=mod + ".cfg", replay_args=["--keys", "derived,hostname,port,href", "--spmodes", "late", "--parser", "lax_host"])
+    absorb(run, M, S, fam.name)
     run_traces(run, salt=19, parse_only=20)
     return run.finish("model_checking", "the derived accessors are functions of the primary components in the specification (DerivedG checked by TLC on "
                       "every state); histories of parse / resolve / setter / clone are replayed and IsIPv4, IsIPv6, DecodedPort, Scheme, Query, Fragment, "
@@ -560,6 +567,10 @@ def check_c08(run):
         HostFamily("v6zero", alphabet="0:1", maxlen=9 if q else 11, frames=[("http://[", "]/")], invariants=["V6TextInv"]),
         HostFamily("v6val", mode="v6val", pieces=(0, 1, 0xabcd) if run.seed % 2 else (0, 0x10, 0xffff), frames=frames if not q else frames[:1],
                    invariants=["V6ValInv", "V6SpellInv"]),
+        # the dotted-decimal tail at the 255 / 256 boundary and beyond (every octet position; numbers of up to four digits, leading zeros)
+        HostFamily("v6tail_last", alphabet="02569", maxlen=4, minlen=1, hpre="::1.2.3.", hsuf="", frames=[("http://[", "]/"), ("x://[", "]/")], invariants=["V6TextInv"]),
+        HostFamily("v6tail_first", alphabet="02569", maxlen=4, minlen=1, hpre="1::", hsuf=".2.3.4", frames=[("http://[", "]/")], invariants=["V6TextInv"]),
+        HostFamily("v6tail_mid", alphabet="02569.", maxlen=4 if q else 5, minlen=1, hpre="1:2:3:4:5:6:1.", hsuf=".4", frames=[("http://[", "]/")], invariants=["V6TextInv"]),
     ]
     run_host_families(run, fams, keys="std,ipv6")
     run_parse_families(run, [f for f in c01_families(run) if f.name in ("brackets", "ipv6deep")], keys="std,ipv6")
